@@ -39,6 +39,7 @@ func checkC02(p *Prog, r *Report) {
 	c02StreamAtWrite(p, r, "C02.stream-at-write")
 	c02ReplyStream(p, r)
 	privateFrames(p, r, "C02.private-frames")
+	c02StreamRelease(p, r)
 }
 
 func c02Ownership(p *Prog, r *Report) {
@@ -249,12 +250,27 @@ func c02StreamAlloc(p *Prog, r *Report) {
 	// ---- the allocated id reaches the sender object
 	{
 		cc := p.Named("proxycore", "ClientConn")
-		send := p.methodOf(cc, "Send")
 		add := getPendingRoles(p).register
+		// the function that registers the request and builds its sender (by role, it may be a helper of Send)
+		send := p.methodOf(cc, "Send")
+		for _, m := range p.methodsOf(cc) {
+			if add != nil && callsDirectly(m, func(c ssa.CallInstruction) bool { return c.Common().StaticCallee() == add }) {
+				send = m
+			}
+		}
+		if send == nil {
+			fatalf("anchor: the ClientConn method that registers and sends a request was not found")
+		}
+		var reqParam ssa.Value
+		for _, pp := range send.Params[1:] {
+			if typeIs(pp.Type(), "proxycore", "Request") {
+				reqParam = pp
+			}
+		}
 		var bad []string
 		lits := structLits(send, func(t types.Type) bool { return typeIs(t, "proxycore", "requestSender") })
 		if len(lits) != 1 {
-			bad = append(bad, fmt.Sprintf("%d sender objects built in ClientConn.Send", len(lits)))
+			bad = append(bad, fmt.Sprintf("%d sender objects built in ClientConn.%s", len(lits), send.Name()))
 		}
 		for _, lit := range lits {
 			okS := false
@@ -276,7 +292,7 @@ func c02StreamAlloc(p *Prog, r *Report) {
 			if !okS {
 				bad = append(bad, "the sender's stream is not the id allocated by addToPending for this send")
 			}
-			if lit[reqFld] != ssa.Value(send.Params[1]) {
+			if reqParam == nil || lit[reqFld] != reqParam {
 				bad = append(bad, "the sender does not carry the request that was registered")
 			}
 			if lit[connFld] != ssa.Value(send.Params[0]) {
@@ -586,5 +602,69 @@ func privateFrames(p *Prog, r *Report, rule string) {
 	}
 	if n < 2 {
 		fatalf("rule %s: only %d stores of re-prepare frames found (2 confirmed by hand)", rule, n)
+	}
+}
+
+// c02StreamRelease: a backend stream id may go back to the free list only when no answer
+// carrying it can still arrive on the connection.
+func c02StreamRelease(p *Prog, r *Report) {
+	const rule = "C02.stream-release"
+	r.Rule(rule, "a backend stream id is released (its pending entry removed) only (a) for the stream id of a frame just received, (b) by the function that registered it when the write failed, i.e. the id never reached the wire, or (c) while notifying the requests of a dead connection; releasing it anywhere else (a timeout, a cancellation) lets the id be reused while the old answer is still in flight, which is then delivered to the new owner")
+	pr := getPendingRoles(p)
+	streamIdF := p.Field("frame", "Header", "StreamId")
+	sites, _ := p.staticCallSites(pr.loadAndDelete)
+	n := 0
+	for _, cs := range sites {
+		fn := cs.Parent()
+		n++
+		arg := cs.Common().Args[len(cs.Common().Args)-1]
+		why := ""
+		switch {
+		case rootFn(fn) == pr.closing:
+			why = "notification of a dead connection"
+		case func() bool {
+			for _, o := range origins(arg) {
+				if f, _ := loadedField(o); f == streamIdF {
+					return true
+				}
+			}
+			return false
+		}():
+			why = "stream id of a received frame"
+		case callsDirectly(fn, func(c ssa.CallInstruction) bool { return c.Common().StaticCallee() == pr.register || c.Common().StaticCallee() == pr.store }):
+			// the registering function: only under a failed write
+			if guardHolds(p, cs.Block(), func(ct condTruth) bool {
+				bo, ok := ct.Cond.(*ssa.BinOp)
+				if !ok || (bo.Op != token.NEQ && bo.Op != token.EQL) {
+					return false
+				}
+				isNil := func(v ssa.Value) bool { c, ok := v.(*ssa.Const); return ok && c.Value == nil }
+				var other ssa.Value
+				switch {
+				case isNil(bo.Y):
+					other = bo.X
+				case isNil(bo.X):
+					other = bo.Y
+				default:
+					return false
+				}
+				if (bo.Op == token.NEQ) != ct.Truth {
+					return false
+				}
+				for _, o := range origins(other) {
+					if c, ok := o.(*ssa.Call); ok && isConnWrite(c) {
+						return true
+					}
+				}
+				return false
+			}, 1) {
+				why = "the write of this registration failed"
+			}
+		}
+		key := fmt.Sprintf("release@%s", strings.TrimPrefix(fn.String(), modPath+"/"))
+		r.check(why != "", rule, key, p.Pos(cs.Pos()), why, "the pending entry (and its stream id) is released here although an answer carrying that id may still arrive on this connection: the id is handed to a later request, which then receives the old answer")
+	}
+	if n < 2 {
+		fatalf("rule %s: only %d release sites found (2 confirmed by hand)", rule, n)
 	}
 }
